@@ -35,7 +35,7 @@ def c13(d, run):
     ok = d.report_trace_results(run, res, "real TinyLFU/CountMinSketch deviates from Sketch.tla")
     run.traces = info.get("instances", 0) if not run.violations else ok
     run.evaluations = info.get("lines", 0)
-    run.nontrivial = _count(trace, lambda j: j.get("ev") == "inc")
+    run.nontrivial = _distinct_add(run, trace, ("inc", "binc"))
     run.rule = ("one evaluation = one recorded call (inc/est/clear/rows) of the real TinyLFU, validated by TLC against "
                 "Sketch.tla; non-trivial = increment calls (each changes doorkeeper or counters and is checked "
                 "byte-for-byte); instances cover num_counters 1..12,15..17,31..33,63..65,70,100,128 (thorough: 1..70, 200..1024)")
@@ -43,6 +43,22 @@ def c13(d, run):
     run.assumptions = ["hashes are logged as three limbs; the spec recomputes all indices (mask < 2^30, doorkeeper exponent <= 21)",
                        "TLC explores Sketch.tla exhaustively only for toy widths (1..8 counters, depth 2; 32 counters for saturation); "
                        "real widths are covered by trace validation"]
+
+
+def _distinct_add(run, path, names):
+    """distinct non-trivial cases: recorded events of the given kinds, told apart by everything they carry except the clock"""
+    import hashlib
+    acc = run.__dict__.setdefault("_distinct", set())
+    with open(path) as f:
+        for line in f:
+            try:
+                j = json.loads(line)
+            except Exception:
+                continue
+            if j.get("ev") in names:
+                j.pop("now", None)
+                acc.add(hashlib.md5(json.dumps(j, sort_keys=True).encode()).hexdigest())
+    return len(acc)
 
 
 def _count(path, pred):
@@ -76,7 +92,7 @@ def c14(d, run):
     ok = d.report_trace_results(run, res, "real Bloom filter deviates from the specified filter (Bloom.tla)")
     run.traces = info.get("instances", 0) if not run.violations else ok
     run.evaluations = info.get("lines", 0)
-    run.nontrivial = _count(trace, lambda j: j.get("ev") in ("add", "coa", "probe"))
+    run.nontrivial = _distinct_add(run, trace, ("add", "coa", "probe"))
     run.rule = ("one evaluation = one recorded call of the real Bloom filter; every contains/contains_or_add result and the "
                 "bit-array population after every add are compared with the specified ideal filter; non-trivial = add / "
                 "contains_or_add / never-added probe events; capacities x rates {0.5,0.1,0.01,0.001}; the false-positive "
@@ -114,7 +130,7 @@ def _policy_stage(d, run, what):
 def c07(d, run):
     trace, info = _policy_stage(d, run, "real LFUPolicy::add deviates from the TinyLFU / sampled-LFU rule of Policy.tla")
     cov = info.get("cov", {})
-    run.nontrivial = cov.get("rounds", 0)
+    run.nontrivial = _distinct_add(run, trace, ("add",))
     run.rule = ("one evaluation = one recorded policy call; non-trivial = rounds of the eviction loop, each re-checked by TLC "
                 "(sample size and residency, minimum, reject-iff-strictly-less-popular, room recomputed, stop condition); "
                 "branch counts in policy_branch_coverage")
@@ -154,7 +170,7 @@ def _trace_cfg(run, name, cmp, invs):
     return path
 
 
-def cache_stage(d, run, what, mcs, profiles, cmp, invs, mc_props=None):
+def cache_stage(d, run, what, mcs, profiles, cmp, invs, mc_props=None, nontrivial=()):
     """mcs: names of MC_Cache_<name>.cfg to run; profiles: [(profile, flavor, n_quick, n_thorough)]"""
     wd = run.workdir
     if _thorough(run):
@@ -183,6 +199,8 @@ def cache_stage(d, run, what, mcs, profiles, cmp, invs, mc_props=None):
         files = d.split_trace(trace, os.path.join(wd, "chunks-%s-%s" % (prof, flavor)), start_events=("Init",), max_lines=1500)
         res = d.validate_chunks("Cache_Trace.tla", cfg, files, wd, par=8, start_events=("Init",))
         ok = d.report_trace_results(run, res, "%s [profile %s, %s]" % (what, prof, flavor))
+        if nontrivial:
+            _distinct_add(run, trace, nontrivial)
         run.traces += n
         if not run.samples:
             run.samples = d.sample_lines(trace, 3, lambda j: j.get("ev") in ("InsBegin", "PNewAdd", "PCleanupKey", "PStop"))
@@ -290,11 +308,11 @@ def c02(d, run):
     h = cache_stage(d, run, "real cache deviates from Cache.tla (lookup results / resident values)",
                     ["conc", "seq"],
                     [("conc", "sync", 40, 300), ("conc_clear", "sync", 15, 150), ("seq", "sync", 15, 100), ("seq_veto", "sync", 10, 80), ("ttl", "sync", 10, 80)],
-                    ["store", "out", "chan"], ["ResidentOwned", "NeverTwice", "NothingLost"])
+                    ["store", "out", "chan"], ["ResidentOwned", "NeverTwice", "NothingLost"], nontrivial=("Get", "GetMut"))
     sim_stage(d, run, "real cache deviates from Cache.tla (lookup results / resident values)", ["store", "out", "chan"],
               ["ResidentOwned", "NeverTwice", "NothingLost"], 30, 300)
     _need(d, h, ["Get", "GetMut", "InsBegin", "RemStore", "PNewStore"])
-    run.nontrivial = h.get("Get", 0) + h.get("GetMut", 0)
+    run.nontrivial = len(getattr(run, "_distinct", ()))
     run.rule = ("one evaluation = one recorded critical section of the real cache under the baton scheduler; non-trivial = "
                 "lookups (get/get_mut), each compared with the value the specification says is visible for that key at that point")
     run.assumptions = BASE_ASSUME
@@ -305,11 +323,11 @@ def c06(d, run):
     h = cache_stage(d, run, "real cache deviates from Cache.tla (resident entries vs policy charges)",
                     ["conc", "seq", "ttl"],
                     [("conc", "sync", 30, 300), ("evict", "sync", 25, 200), ("seq", "sync", 15, 150), ("ttl", "sync", 10, 80), ("conc_clear", "sync", 10, 100)],
-                    ["store", "costs", "chan"], ["Agree", "UsedIsSum"])
+                    ["store", "costs", "chan"], ["Agree", "UsedIsSum"], nontrivial=("End", "WaitRet", "PWait", "PDelPolicy", "PVictim", "PNewStore"))
     sim_stage(d, run, "real cache deviates from Cache.tla (resident entries vs policy charges)", ["store", "costs", "chan"],
               ["Agree", "UsedIsSum"], 30, 300)
     _need(d, h, ["PNewAdd", "PNewStore", "PDel", "PDelPolicy", "PVictim", "PCleanupKey", "End"])
-    run.nontrivial = h.get("End", 0) + h.get("WaitRet", 0) + h.get("PWait", 0)
+    run.nontrivial = len(getattr(run, "_distinct", ()))
     run.rule = ("one evaluation = one recorded critical section; non-trivial = quiescent points reached (end of run after drain, "
                 "wait() returns) at which TLC evaluates Resident = Charged on the recorded state")
     run.assumptions = BASE_ASSUME
@@ -320,11 +338,11 @@ def c08(d, run):
     h = cache_stage(d, run, "real cache deviates from Cache.tla (callbacks / value conservation)",
                     ["conc", "seq", "ttl"],
                     [("conc", "sync", 30, 300), ("evict", "sync", 25, 200), ("seq", "sync", 15, 150), ("seq_veto", "sync", 10, 60), ("ttl", "sync", 10, 80)],
-                    ["store", "cbs", "chan", "costs"], ["Conservation", "NeverTwice", "NothingLost", "ResidentOwned"])
+                    ["store", "cbs", "chan", "costs"], ["Conservation", "NeverTwice", "NothingLost", "ResidentOwned"], nontrivial=("PVictim", "PDelPolicy", "PCleanupDone", "RemStore", "PCleanItem", "PNewStore", "InsBegin"))
     sim_stage(d, run, "real cache deviates from Cache.tla (callbacks / value conservation)", ["store", "cbs", "chan", "costs"],
               ["Conservation", "NeverTwice", "NothingLost", "ResidentOwned"], 30, 300)
     _need(d, h, ["PNewStore", "PVictim", "PDelPolicy", "PCleanupDone", "RemStore"])
-    run.nontrivial = sum(h.get(k, 0) for k in ("PVictim", "PDelPolicy", "PCleanupDone", "RemStore", "PCleanItem"))
+    run.nontrivial = len(getattr(run, "_distinct", ()))
     run.rule = ("one evaluation = one recorded critical section, with the callbacks (kind, value id, cost) fired inside it; "
                 "non-trivial = sections that can hand a value to a callback; TLC compares them with the specification's and "
                 "evaluates conservation at every quiescent state")
@@ -345,11 +363,11 @@ def c10(d, run):
     h = cache_stage(d, run, "real cache deviates from Cache.tla (wait barrier / termination)",
                     ["life", "conc"],
                     [("life", "sync", 40, 300), ("conc_clear", "sync", 25, 150), ("conc", "sync", 15, 100)],
-                    ["chan", "out", "store", "costs"], ["NoOrphan", "Agree"])
+                    ["chan", "out", "store", "costs"], ["NoOrphan", "Agree"], nontrivial=("WaitSend", "WaitBlock", "WaitRet", "PWait", "PCleanItem", "PStop"))
     sim_stage(d, run, "real cache deviates from Cache.tla (wait barrier / termination)", ["chan", "out", "store", "costs"],
               ["NoOrphan", "Agree"], 40, 400)
     _need(d, h, ["WaitSend", "WaitBlock", "PWait", "PCleanItem", "PStop"])
-    run.nontrivial = h.get("WaitSend", 0)
+    run.nontrivial = len(getattr(run, "_distinct", ()))
     run.rule = ("non-trivial = wait() calls; each must return exactly when the specification releases its marker, with the "
                 "state at return equal to the specification's (barrier), and a waiter may stay blocked only under known finding D6")
     run.assumptions = BASE_ASSUME + ["liveness on the implementation side is judged at the end of each run: after everything that can "
@@ -362,25 +380,36 @@ def c12(d, run):
     h = cache_stage(d, run, "real cache deviates from Cache.tla (close protocol)",
                     ["life"],
                     [("life", "sync", 50, 400)],
-                    ["life", "out", "chan", "store"], ["NoOrphan"])
+                    ["life", "out", "chan", "store"], ["NoOrphan"], nontrivial=("ClrSend", "ClsStopSend", "ClsStopFail", "ClsPol", "ClsPolSend", "ClsPolFlag", "ClsFlag", "PStop", "LStop"))
     sim_stage(d, run, "real cache deviates from Cache.tla (close protocol)", ["life", "out", "chan", "store"], ["NoOrphan"], 40, 400,
               flavors=("sync", "async"))
     free_stage(d, run, "the real background loops violate a state predicate of Cache.tla (worker termination)",
                [("sync", "thread", 4, 24), ("async", "thread", 4, 24)])
     _need(d, h, ["ClsStopSend", "PStop", "LStop", "ClsFlag", "ClsStopFail"])
-    run.nontrivial = h.get("ClrSend", 0)
+    run.nontrivial = len(getattr(run, "_distinct", ()))
     run.rule = ("non-trivial = close()/clear() calls racing other operations; every result after close, every blocking point "
                 "and the exit of both workers must follow the specification")
     run.assumptions = BASE_ASSUME + ["select! fairness: a continuously ready arm is eventually taken (the harness takes every ready arm)"]
 
 
 def c17(d, run):
+    mc = d.tlc_mc("MC_Histogram.tla", "MC_Histogram.cfg", run.workdir, workers=2)
+    run.add_mc(mc, "MC_Histogram (bounds 2,4,8; values on/around bounds; <= 6 updates / clears: count = sum of buckets, percentile rule)")
+    if mc["violated"]:
+        run.violation("Histogram.tla violates %s" % mc["violated"], replay_lines=[mc["out"][-4000:]])
+    ht = os.path.join(run.workdir, "histogram.ndjson")
+    hi = d.vh(["histogram", "--out", ht, "--seed", run.seed, "--tier", run.tier])
+    res = d.validate_chunks("Histogram_Trace.tla", "Histogram_Trace.cfg", [ht], run.workdir, par=1, start_events=("new",))
+    d.report_trace_results(run, res, "real Histogram deviates from Histogram.tla")
+    run.traces += hi.get("instances", 0)
+    run.evaluations += hi.get("lines", 0)
+    _distinct_add(run, ht, ("update", "clear"))
     h = cache_stage(d, run, "real cache deviates from Cache.tla (metrics)",
                     ["seq", "conc"],
                     [("seq", "sync", 20, 150), ("conc", "sync", 20, 200), ("evict", "sync", 20, 150), ("seq_internal", "sync", 10, 60), ("ttl", "sync", 10, 60)],
-                    ["met", "costs", "chan", "store"], ["MetricsLaws", "MetricsCounts", "UsedIsSum"])
+                    ["met", "costs", "chan", "store"], ["MetricsLaws", "MetricsCounts", "UsedIsSum"], nontrivial=("Get", "GetMut", "PNewAdd", "PNewStore", "PUpd", "PVictim", "PDelPolicy", "ClrMetrics", "InsSend"))
     _need(d, h, ["Get", "PNewAdd", "PUpd", "PVictim", "ClrMetrics"])
-    run.nontrivial = h.get("End", 0) + h.get("PWait", 0)
+    run.nontrivial = len(getattr(run, "_distinct", ()))
     run.rule = ("every counter is compared after every recorded critical section; non-trivial = quiescent points at which TLC "
                 "evaluates the conservation laws")
     run.assumptions = BASE_ASSUME
@@ -390,12 +419,13 @@ def c17(d, run):
 def c01(d, run):
     trace, info = _policy_stage(d, run, "real LFUPolicy cost accounting deviates from Policy.tla")
     cov = info.get("cov", {})
+    _distinct_add(run, trace, ("add", "update", "remove", "setmax", "clear"))
     h = cache_stage(d, run, "real cache deviates from Cache.tla (charged cost vs max_cost)",
                     ["seq", "conc"],
                     [("evict", "sync", 25, 200), ("seq_internal", "sync", 10, 80), ("conc", "sync", 15, 150), ("evict", "async", 10, 100)],
-                    ["costs", "chan", "store"], ["UsedIsSum", "Bounded"])
+                    ["costs", "chan", "store"], ["UsedIsSum", "Bounded"], nontrivial=("PNewAdd", "PUpd", "SetMax", "PVictim", "PDelPolicy", "ClrPolicy"))
     _need(d, h, ["PNewAdd", "PUpd", "SetMax", "PVictim"])
-    run.nontrivial = cov.get("adds", 0) + h.get("PNewAdd", 0) + h.get("PUpd", 0) + h.get("SetMax", 0)
+    run.nontrivial = len(getattr(run, "_distinct", ()))
     run.rule = ("policy level: every add/update/remove/clear/update_max_cost call of the real LFUPolicy with the full (key -> charge) "
                 "map; cache level: every processor / client section with charges, used and max_cost; non-trivial = steps that change "
                 "the charged total or max_cost; TLC evaluates used = sum of charges and used <= max_cost + slack on every recorded state")
@@ -406,9 +436,9 @@ def c03(d, run):
     h = cache_stage(d, run, "real cache deviates from Cache.tla (TTL visibility)",
                     ["ttl"],
                     [("ttl", "sync", 30, 300), ("ttl_fine", "sync", 20, 150), ("ttl_conc", "sync", 25, 200), ("ttl", "async", 10, 80)],
-                    ["store", "out", "em", "vttl"], ["IndexExact", "ResidentOwned"])
+                    ["store", "out", "em", "vttl"], ["IndexExact", "ResidentOwned"], nontrivial=("Get", "GetMut", "GetTtl"))
     _need(d, h, ["Get", "GetTtl", "GetMut", "Advance", "PCleanupKey"])
-    run.nontrivial = h.get("Get", 0) + h.get("GetTtl", 0) + h.get("GetMut", 0)
+    run.nontrivial = len(getattr(run, "_distinct", ()))
     run.rule = ("virtual clock in milliseconds; non-trivial = get / get_mut / get_ttl calls, whose visibility and remaining ttl are "
                 "compared with the specification's arithmetic on (creation instant, ttl, now); ttls 1 ms .. 1 h, advances straddling "
                 "second boundaries")
@@ -419,9 +449,9 @@ def c04(d, run):
     h = cache_stage(d, run, "real cache deviates from Cache.tla (below capacity the cache is an exact map)",
                     ["seq", "ttl"],
                     [("below", "sync", 30, 250), ("below_ttl", "sync", 30, 250), ("below_ttl", "async", 10, 80)],
-                    ["store", "em", "costs", "out", "cbs", "chan"], ["NoLoss", "IndexExact", "Agree", "Conservation"])
+                    ["store", "em", "costs", "out", "cbs", "chan"], ["NoLoss", "IndexExact", "Agree", "Conservation"], nontrivial=("InsBegin", "Get", "RemStore", "PCleanupKey"))
     _need(d, h, ["InsBegin", "Get", "RemStore", "ClrSend", "PTick", "Advance", "PCleanupKey"])
-    run.nontrivial = h.get("InsBegin", 0) + h.get("Get", 0)
+    run.nontrivial = len(getattr(run, "_distinct", ()))
     run.rule = ("sequential histories (processor drained between calls) whose total demanded cost fits in max_cost: inserts with and "
                 "without TTL, re-inserts switching between them, removes, clears, clock advances, ticks at every interval; non-trivial = "
                 "inserts and lookups; TLC evaluates NoLoss (nothing refused, evicted or lost; resident set = demanded set) on every "
@@ -433,11 +463,11 @@ def c05(d, run):
     h = cache_stage(d, run, "real cache deviates from Cache.tla (expiry index and cleanup)",
                     ["ttl"],
                     [("ttl", "sync", 30, 300), ("ttl_fine", "sync", 20, 150), ("ttl_conc", "sync", 25, 200), ("ttl", "async", 10, 80)],
-                    ["store", "em", "costs", "cbs", "chan"], ["IndexExact", "Agree", "UsedIsSum", "NeverTwice", "Conservation"])
+                    ["store", "em", "costs", "cbs", "chan"], ["IndexExact", "Agree", "UsedIsSum", "NeverTwice", "Conservation"], nontrivial=("PTick", "PCleanupKey", "PCleanupDone"))
     free_stage(d, run, "the real background loops violate a state predicate of Cache.tla (bounded reclaim delay, exact index)",
                [("sync", "thread", 4, 32), ("async", "thread", 4, 32)])
     _need(d, h, ["PTick", "PCleanupKey", "PCleanupDone", "Advance", "InsBegin"])
-    run.nontrivial = h.get("PCleanupKey", 0)
+    run.nontrivial = len(getattr(run, "_distinct", ()))
     run.rule = ("non-trivial = keys handled by a cleanup sweep; after every section the expiration buckets, resident entries, "
                 "charges and on_evict records of the implementation must equal the specification's, whose sweep takes every due bucket")
     run.assumptions = BASE_ASSUME + ["ticks are fired by the harness at arbitrary instants of the virtual clock (the real ticker is parked)"]
@@ -447,9 +477,9 @@ def c09(d, run):
     h = cache_stage(d, run, "real cache deviates from Cache.tla (conditional writes)",
                     ["seq"],
                     [("seq_veto", "sync", 30, 200), ("seq_veto5", "sync", 15, 100), ("cond", "sync", 20, 150), ("seq_veto", "async", 10, 60)],
-                    ["store", "em", "out", "chan", "cbs"], ["ResidentOwned", "IndexExact", "CondNeverCreates"])
+                    ["store", "em", "out", "chan", "cbs"], ["ResidentOwned", "IndexExact", "CondNeverCreates"], nontrivial=("InsBegin",))
     _need(d, h, ["InsBegin", "PNewStore"])
-    run.nontrivial = h.get("InsBegin", 0)
+    run.nontrivial = len(getattr(run, "_distinct", ()))
     run.rule = ("non-trivial = insert / insert_if_present calls under vetoing validators (asymmetric and symmetric predicates over "
                 "value ids); result, resident value, deadline and buffer effect are compared with the specification after the call")
     run.assumptions = BASE_ASSUME
@@ -459,11 +489,11 @@ def c11(d, run):
     h = cache_stage(d, run, "real cache deviates from Cache.tla (clear)",
                     ["conc", "ttl", "seq"],
                     [("conc_clear", "sync", 40, 300), ("ttl_clear", "sync", 20, 150), ("seq", "sync", 10, 80), ("conc_clear", "async", 10, 80)],
-                    ALL_CMP, ["IndexExact", "Agree", "UsedIsSum", "MetricsLaws", "ResidentOwned", "ClearEmpties"])
+                    ALL_CMP, ["IndexExact", "Agree", "UsedIsSum", "MetricsLaws", "ResidentOwned", "ClearEmpties"], nontrivial=("ClrSend", "ClrPolicy", "ClrStore", "ClrMetrics", "PClrTake", "PCleanItem"))
     sim_stage(d, run, "real cache deviates from Cache.tla (clear)", ALL_CMP,
               ["IndexExact", "Agree", "UsedIsSum", "MetricsLaws", "ResidentOwned", "ClearEmpties"], 30, 300, flavors=("sync", "async"))
     _need(d, h, ["ClrSend", "ClrStore", "ClrMetrics", "PClrTake", "PCleanItem"])
-    run.nontrivial = h.get("ClrSend", 0)
+    run.nontrivial = len(getattr(run, "_distinct", ()))
     run.rule = ("non-trivial = clear() calls with 0..buffer-size items pending, the processor and a second client interleaved at every "
                 "section; after each section store, buckets, charges and every metrics counter must equal the specification's")
     run.assumptions = BASE_ASSUME
@@ -475,9 +505,9 @@ def c16(d, run):
                     ["seq"],
                     [("seq_internal", "sync", 25, 200), ("seq", "sync", 15, 100), ("seq_coster0", "sync", 10, 60), ("ttl", "sync", 10, 60),
                      ("evict", "sync", 10, 80), ("seq_internal", "async", 10, 60)],
-                    ["costs", "cbs", "chan", "store"], ["UsedIsSum", "Agree", "ChargeFormula"])
+                    ["costs", "cbs", "chan", "store"], ["UsedIsSum", "Agree", "ChargeFormula"], nontrivial=("PNewAdd", "PUpd", "PVictim", "PCleanupDone"))
     _need(d, h, ["PNewAdd", "PUpd", "PVictim"])
-    run.nontrivial = h.get("PNewAdd", 0) + h.get("PUpd", 0)
+    run.nontrivial = len(getattr(run, "_distinct", ()))
     run.rule = ("non-trivial = policy applications of New / Update items: the charge must be explicit cost (or Coster value when 0) + "
                 "the per-entry overhead read from the implementation (size_of StoreItem) unless ignored; evict / reject records carry it")
     run.assumptions = BASE_ASSUME
@@ -497,9 +527,9 @@ def c18(d, run):
     h = cache_stage(d, run, "real cache deviates from Cache.tla (colliding keys)",
                     ["seq"],
                     [("coll", "sync", 30, 200), ("coll_conc", "sync", 15, 100), ("coll", "async", 10, 60)],
-                    ["store", "out", "costs", "cbs", "chan"], ["ResidentOwned", "Agree", "Conservation"])
+                    ["store", "out", "costs", "cbs", "chan"], ["ResidentOwned", "Agree", "Conservation"], nontrivial=("InsBegin", "Get", "GetMut", "GetTtl", "RemStore", "PDel"))
     _need(d, h, ["InsBegin", "Get", "RemStore", "PDel"])
-    run.nontrivial = h.get("InsBegin", 0) + h.get("Get", 0) + h.get("RemStore", 0) + r.get("lines", 0)
+    run.nontrivial = len(getattr(run, "_distinct", ()))
     run.rule = ("(a) build_key of every supported integer type over boundary and random values and of String/&str pairs, checked by "
                 "KeyHash_Trace (function consistency, identity on limbs); (b) histories over pairs of keys forced to share an index: "
                 "every result and state compared with Cache.tla, in which keys are (index, conflict) pairs")
@@ -526,6 +556,7 @@ def c15(d, run):
         files = d.split_trace(trace, os.path.join(wd, "chunks-%s-%s" % (prof, flavor)), start_events=("Init",), max_lines=1500)
         res = d.validate_chunks("Ring_Trace.tla", "Ring_Trace.cfg", files, wd, par=8, start_events=("Init",))
         d.report_trace_results(run, res, "real lookup recording deviates from Ring.tla [profile %s, %s]" % (prof, flavor))
+        _distinct_add(run, trace, ("Get", "GetMut", "LRecv"))
         run.traces += n
         run.evaluations += info.get("events", 0)
         if not run.samples:
@@ -535,7 +566,7 @@ def c15(d, run):
                [("sync", "thread", 4, 16), ("async", "thread", 4, 16)], est=True)
     _need(d, hist, ["Get", "GetMut", "LRecv", "ClsPolFlag"])
     run.notes["event_histogram"] = hist
-    run.nontrivial = hist.get("Get", 0) + hist.get("GetMut", 0) + hist.get("LRecv", 0)
+    run.nontrivial = len(getattr(run, "_distinct", ()))
     run.rule = ("non-trivial = lookups (hit or miss) and policy-worker steps; after each one the pending batch length, the policy "
                 "queue length and gets_kept / gets_dropped of the implementation must equal Ring.tla's, and after a worker step the "
                 "estimate of every key must reflect the lookups applied so far (no aging reset possible yet); buffer_items 0,1,2,3,5,64; "
@@ -571,7 +602,7 @@ def c19(d, run):
                     ["async", "seq"],
                     [("seq", "async", 8, 120), ("conc", "async", 15, 200), ("conc_clear", "async", 10, 120), ("life", "async", 15, 200),
                      ("ttl", "async", 6, 80), ("evict", "async", 10, 120), ("ttl_conc", "async", 6, 80)],
-                    ALL_CMP, ALL_INV)
+                    ALL_CMP, ALL_INV, nontrivial=("RemSendA", "RemRet", "RemBlock", "PStop", "LStop", "ClsStopSend", "ClsPolSend", "PCleanupKey", "InsBegin", "Get"))
     sim_stage(d, run, "real AsyncCache deviates from Cache.tla", ALL_CMP, ALL_INV, 30, 300, flavors=("async",))
     free_stage(d, run, "AsyncCache's real background tasks violate a state predicate of Cache.tla",
                [("async", "thread", 4, 24), ("async", "pool", 4, 24), ("async", "local", 4, 24), ("sync", "thread", 4, 8)])
@@ -598,7 +629,7 @@ def c19(d, run):
             d.report_trace_results(run, res, "real cache deviates from Cache.tla [equivalence run %s]" % prof)
         run.traces += 2 * n
     run.notes["sync_async_history_pairs_compared"] = pairs
-    run.nontrivial = h.get("RemSendA", 0) + h.get("PStop", 0) + pairs
+    run.nontrivial = len(getattr(run, "_distinct", ()))
     run.rule = ("(1) every profile used for the synchronous cache re-run on AsyncCache (parked async processors stepped through the "
                 "same handlers the tasks call) and validated against the same specification with Flavor = async; (2) identical "
                 "seeded sequential histories executed on both flavours: results, callbacks, resident entries, charges, metrics and "
@@ -621,11 +652,11 @@ def c20(d, run):
     h = cache_stage(d, run, "a cache built from an accepted configuration deviates from Cache.tla / panics",
                     [],
                     [("cfg", "sync", 70, 560), ("cfg", "async", 35, 280)],
-                    ALL_CMP, ALL_INV)
+                    ALL_CMP, ALL_INV, nontrivial=("Init", "Finalize", "LRecv", "PVictim", "PCleanupKey"))
     free_stage(d, run, "a cache built from an accepted configuration does not complete its operations (real loops, tiny cleanup intervals included)",
                [("sync", "thread", 8, 40), ("async", "thread", 4, 24)])
     _need(d, h, ["Finalize", "LRecv", "PVictim", "PCleanupKey", "Get"])
-    run.nontrivial = h.get("Init", 0)
+    run.nontrivial = len(getattr(run, "_distinct", ()))
     run.rule = ("one instance per configuration: num_counters 1..70 in turn (quick: once each for sync, every second one for async), "
                 "max_cost 1..8, buffer size 1..2, buffer_items {0,1,2,64}; each runs inserts, lookups past buffer_items (batches flush and "
                 "the policy worker applies them to the small estimator), removes, TTL expiry with ticks and over-capacity inserts; a panic "
